@@ -157,13 +157,13 @@ pub fn run() -> i32 {
     let mut ctx = Ctx::new("C10", "exploration");
     let seed = ctx.seed;
     let tier = ctx.tier;
-    ctx.rule = "full products: (a) 6 passwords (incl. empty and non-UTF-8) x opslimit {1,2,3,4} x memlimit {8192,8193,9000,9216,10240,11264,13312,16384,65536,1 MiB,1 MiB+3 KiB} (KiB counts of every residue mod 4): crypto_pwhash_str under a pinned RNG, the string parsed by an independent PHC parser — algorithm, version, costs must be the ones used, the hash field must be argon2id(pw, encoded salt, t, m) per libsodium (so the string describes the salt actually used); libsodium's verifier accepts it for the right password and rejects a wrong one; (b) the same product with strings made by libsodium verified by crypto_pwhash_str_verify and PwHash::from_string().verify and re-encoded; (c) both algorithms x salt length every 8..=64 x hash length every 16..=128 (quick: step 3 + boundaries), strings from libsodium's encoder: from_string -> to_string returns the same string, verify accepts/rejects; PwHash::hash round trip per length; (c') every boundary cost value (m up to 2^32-1 KiB, t up to 2^32-1) parsed, re-encoded and asked for needs_rehash without hashing; (d) needs_rehash truth table over (ops,mem)^2 for dryoc- and libsodium-made strings of both algorithms compared with libsodium's answer; non-trivial = cell executed".into();
+    ctx.rule = "full products: (a) 6 passwords (incl. empty and non-UTF-8) x opslimit {1,2,3,4} x memlimit {8192,8193,9000,9216,10240,11264,13312,16384,65536,516 KiB,600 KiB,1000 KiB,1 MiB,1 MiB+3 KiB,1500 KiB} (KiB counts of every residue mod 4): crypto_pwhash_str under a pinned RNG, the string parsed by an independent PHC parser — algorithm, version, costs must be the ones used, the hash field must be argon2id(pw, encoded salt, t, m) per libsodium (so the string describes the salt actually used); libsodium's verifier accepts it for the right password and rejects a wrong one; (b) the same product with strings made by libsodium verified by crypto_pwhash_str_verify and PwHash::from_string().verify and re-encoded; (c) both algorithms x salt length every 8..=64 x hash length every 16..=128 (quick: step 3 + boundaries), strings from libsodium's encoder: from_string -> to_string returns the same string, verify accepts/rejects; PwHash::hash round trip per length; (c') every boundary cost value (m up to 2^32-1 KiB, t up to 2^32-1) parsed, re-encoded and asked for needs_rehash without hashing; (d) needs_rehash truth table over (ops,mem)^2 for dryoc- and libsodium-made strings of both algorithms compared with libsodium's answer; non-trivial = cell executed".into();
     ctx.assume("libsodium's encoder/verifier is the reference for the string format; RNG seam H3 pins the salt");
     let pws = passwords(seed);
     let opss = [1u64, 2, 3, 4];
-    let mems = [8192usize, 8193, 9000, 9216, 10240, 11264, 13 * 1024, 16384, 65536, 1 << 20, (1 << 20) + 3072];
+    let mems = [8192usize, 8193, 9000, 9216, 10240, 11264, 13 * 1024, 16384, 65536, 516 * 1024, 600 * 1024, 1000 * 1024, 1 << 20, (1 << 20) + 3072, 1500 * 1024];
 
-    let units: Vec<(usize, usize, usize)> = (0..pws.len()).flat_map(|p| (0..4).flat_map(move |o| (0..11).map(move |m| (p, o, m)))).collect();
+    let units: Vec<(usize, usize, usize)> = (0..pws.len()).flat_map(|p| (0..4).flat_map(move |o| (0..15).map(move |m| (p, o, m)))).collect();
     let st = par_units(&units, |&(pi, oi, mi), st| {
         let salt: [u8; 16] = prand(seed, "c10-salt", (pi * 100 + oi * 10 + mi) as u64, 16).try_into().unwrap();
         let r = check_a(&pws[pi], opss[oi], mems[mi], &salt);
